@@ -11,6 +11,38 @@ NOTE = ("Trusted: the symgo engine (fork of x/tools go/ssa/interp + SMT encoding
 
 # id -> (claim text, design ref)
 CLAIMS = {
+ "C07": ("Scenario on the real db19 transaction layer (HeapStor, synchronous checker): table key(a) unique(u), two transactions each "
+         "adding a row with arbitrary 0..1-byte values in 5 interleavings (and key() tables; and updates of key/unique value): in every "
+         "committed state no two rows share a key (incl. the empty key) or a non-empty unique value, refusals happen exactly on "
+         "collisions, index scans and row counts equal the model (solver verdict over all byte values per interleaving).", "4 C07"),
+ "C08": ("Scenario on the real db19 transaction layer: target key(k), source index(k) in target with mode block / cascade update / "
+         "cascade deletes / cascade; one target row, 1..2 source rows with arbitrary 0..1-byte values, then delete target / change "
+         "target key / change source value / insert source: accepted or refused exactly as Foreign Keys.md says, cascades applied, "
+         "no orphan in the committed state (solver verdict over all byte values per mode and operation).", "4 C08"),
+ "C11": ("ixbuf.Combine equals the specification table for all 40-bit offsets and flag pairs; Merge of 2..3 buffers (small buffers with "
+         "arbitrary 1-byte keys; real-size 12/13-slot chunks with free entries at every order type relative to them, exercising "
+         "pass-through and flush) with symbolic offsets and change kinds yields sorted unique keys, size bookkeeping, each slot == "
+         "fold of Combine over the inputs in order, inputs unchanged; Insert histories and chunk split equal the sequential model.", "4 C11"),
+ "C27": ("dnum Add/Sub for all 16-digit coefficient pairs, both signs, exponent differences {0,1,15,16,>=17} (thorough: all 0..16): "
+         "|result - exact| <= 1 unit of the 16th digit of the larger operand (or of the result after a carry), via ghost unbounded "
+         "integers; Mul for all coefficient pairs within 1 unit of the result (z3 NIA); Div case structure with div128 replaced by its "
+         "assumed contract floor(1e16*a/b); overflow to inf / underflow to zero at the exponent limits; Compare == order of exact values.", "4 C27"),
+ "C31": ("For every string of 0..2 (thorough 3) arbitrary bytes and each quoting mode, compile.Constant(SuStr(s).String()/Display) "
+         "is an equal string; every unterminated literal (quote + 0..2 (thorough 3) arbitrary bytes without a closing quote, with or "
+         "without escapes) is tok.Error for the lexer and is rejected by compile.Constant.", "4 C31"),
+ "C32": ("For every input of 0..2 (thorough 3) arbitrary bytes the lexer reaches Eof within len+1 tokens without panic, positions "
+         "strictly increase and token spans tile the input; compile.Constant on every source of 0..2 arbitrary bytes and of 3 "
+         "(thorough 4) characters over a 24-symbol alphabet returns or panics with an ordinary value, never a Go runtime error.", "4 C32"),
+ "C39": ("ordset and ranges (node capacity shrunk to 4 so splits/coalescing/leaf removal occur; and real capacity): one Insert from an "
+         "arbitrary valid pre-state of stated shapes (0..16 entries, 1..4 leaves, full tree) with arbitrary keys of 0..1 bytes, and "
+         "histories from empty: Contains/AnyInRange for an arbitrary probe equal the set / interval-union model, invariants (sorted, "
+         "unique/disjoint, separators) re-established, result codes consistent. sortlist, bloom, roaring, shmap, lrucache, cache are "
+         "NOT covered.", "4 C39"),
+ "C41": ("The real server dispatch (doRequest -> request -> cmds[c]) on an unauthenticated connection: one request with arbitrary "
+         "command byte and 0..3 (thorough 4) arbitrary argument bytes, with or without an outstanding nonce: the connection stays "
+         "unauthenticated, every command outside {Auth, LibGet, Libraries, Nonce, SessionId, EndSession} is answered with an error, "
+         "creates no token, leaves the other connection untouched and never terminates the process; Nonce->Auth as an unknown user, "
+         "self-issued Token->Auth and a forged token do not authenticate (crypto/rand arbitrary, sha1 uninterpreted-functional).", "4 C41"),
  "C38": ("For all inputs within the stated lengths (src/sets/strings of 0..3-4 arbitrary bytes): tr.Replace(src, New(from), New(to)) "
          "equals a per-character reference (translate, squeeze, delete, complement, a-b ranges of width<=3); str.ToLower/ToUpper/"
          "Capitalize/CmpLower/EqualCI/CommonPrefix/HasPrefix/BeforeFirst/AfterFirst/BeforeLast/AfterLast/Cut/Subi/Subn/Split/Join "
